@@ -133,7 +133,7 @@ class NsConcWorld(World):
     STUB = ["threading.RLock (simulated, baton scheduler)", "client threads call NameServer methods directly (88% of the plans) or "
             "through a real thread-pool Daemon and Proxies over in-memory sockets with one of the four serializers (12%)"]
     PROBES = ["overlap", "preempted", "safe_register_conflict", "remove_conflict", "naming_error", "sql_storage",
-              "list_during_mutation", "stalled", "commtimeout", "autoclean", "autoclean_removed", "wire"]
+              "list_during_mutation", "stalled", "commtimeout", "autoclean", "autoclean_removed", "wire", "nameserver_daemon"]
     RULE = ("plan = (storage, initial registrations, 2-4 threads x 1-2 operations on names with a common prefix, "
             "pre-emption probabilities); distinct = distinct interleaving digest; non-trivial = at least two operations "
             "overlapped in time and at least one scheduling choice deviated from run-to-block")
@@ -155,12 +155,19 @@ class NsConcWorld(World):
             plan["wire"] = {"serializer": rng.choice(["serpent", "json", "marshal", "msgpack", "msgpack"])}
             plan["p_line"] = rng.choice([0.01, 0.03, 0.08])
             return plan
+        if plan["storage"] == "memory" and rng.random() < 0.08:
+            plan["nsdaemon"] = rng.choice(["multiplex", "multiplex", "thread"])
+            return plan
         if rng.random() < 0.1:
             # the name server's own background thread: NS_AUTOCLEAN on, two registrations whose daemons do not answer.
             # The AutoCleaner removes them ~24 virtual seconds after it started, which is when the clients operate
             dead = ["dead.%d" % i for i in range(1, rng.randint(1, 3) + 1)]
             for i, n in enumerate(dead):
                 plan["init"].append({"op": "register", "name": n, "uri": "PYRO:gone%d@dead:%d" % (i, 9 + i), "safe": False, "meta": None})
+            if rng.random() < 0.6:
+                # a LIVE registration whose name merely starts with a dead one's name (its daemon answers): nobody removes it
+                plan["init"].append({"op": "register", "name": dead[0] + rng.choice(["x", ".standby", "0"]), "uri": "PYRO:alive@live:77",
+                                     "safe": False, "meta": None})
             plan["autoclean"] = {"dead": dead, "at": [rng.choice([23.99, 24.0, 24.0, 24.0, 24.001, 26.0]) for _ in range(4)]}
             for ops in plan["threads"]:
                 for op in ops:
@@ -319,8 +326,19 @@ class NsConcWorld(World):
         else:
             storage = NS.MemoryStorage()
         try:
-            ns = NS.NameServer(storage)
+            if plan.get("nsdaemon") and plan["storage"] == "memory":
+                # the name server as the application gets it: inside a NameServerDaemon (here of the multiplex kind, its loop not
+                # running); the threads of this run are application threads that use daemon.nameserver directly
+                config.SERVERTYPE = plan["nsdaemon"]
+                nsd = NS.NameServerDaemon(host="127.0.0.1", port=0)
+                ns = nsd.nameserver
+                ctx.probe("nameserver_daemon")
+            else:
+                ns = NS.NameServer(storage)
             init = {}
+            if plan.get("nsdaemon") and plan["storage"] == "memory":
+                # (such a name server starts with its own entry)
+                init = {n: (str(u), frozenset(m)) for n, (u, m) in ns.list(return_metadata=True).items()}
             for op in plan["init"]:
                 self._call(ns, op)
                 _, init = model_apply(op, init)
